@@ -287,9 +287,14 @@ func runLadder(c *Ctx, f family, fn string, rungs []int) {
 				fn, m.Bytes, f.name, n, m.Alloc>>20, c14AbsLimit>>20, c14AbsBytes, m.WallMs, trunc(expr, 80))
 			violated = true
 		}
-		if k := len(ms); k >= 2 {
-			p := ms[k-2]
-			if m.Alloc >= c14NoiseFloor && p.Alloc > 0 && m.Bytes > p.Bytes {
+		if k := len(ms); k >= 2 && m.Alloc >= c14NoiseFloor {
+			// compare with the closest earlier rung whose input is at least 3x smaller: a span that wide keeps
+			// one-off effects (a slice capacity doubling between two neighbouring rungs) from mimicking a high exponent
+			for j := k - 2; j >= 0; j-- {
+				p := ms[j]
+				if p.Alloc == 0 || p.Bytes == 0 || float64(m.Bytes) < 3*float64(p.Bytes) {
+					continue
+				}
 				d := math.Log(float64(m.Alloc)/float64(p.Alloc)) / math.Log(float64(m.Bytes)/float64(p.Bytes))
 				c.Max("exponent_x100_"+f.name, int64(d*100))
 				c.Inc("exponents_measured")
@@ -298,10 +303,11 @@ func runLadder(c *Ctx, f family, fn string, rungs []int) {
 				}
 				if d > c14MaxExponent {
 					c.Violation(famKey(f, fn, "growth"), "C14.ladder", C14Case{Family: f.name, Fn: fn, N: []int{p.N, n}},
-						"%s on family %s: input %d -> %d bytes (n=%d -> %d) made allocation grow %d -> %d bytes: local exponent %.1f > %.1f",
+						"%s on family %s: input %d -> %d bytes (n=%d -> %d) made allocation grow %d -> %d bytes: exponent %.1f > %.1f",
 						fn, f.name, p.Bytes, m.Bytes, p.N, n, p.Alloc, m.Alloc, d, c14MaxExponent)
 					violated = true
 				}
+				break
 			}
 		}
 		if violated || m.Alloc > c14StopAbove {
@@ -406,7 +412,7 @@ func runC14(c *Ctx, phase string) {
 	}
 	c.Meta("one call per measurement in a single-goroutine child; bytes allocated = runtime.MemStats.TotalAlloc delta (deterministic, load independent; wall time recorded for information only). "+
 		"Ladders over input families (AND/OR chains, repeated term, nesting depth, AND of n 2-way/3-way OR groups, alternating nests, OR of ANDs, AND chain times OR, -or-later chains, WITH chains, reference chains, parenthesised singletons, "+
-		"long allowed list, long expression and list, long id / reference / spaces, ValidateLicenses over n elements) x functions; local exponent between consecutive rungs above the 8 MiB noise floor must be <= 3.5; "+
+		"long allowed list, long expression and list, long id / reference / spaces, ValidateLicenses over n elements) x functions; growth exponent ln(a2/a1)/ln(s2/s1) between a rung above the 8 MiB noise floor and the closest earlier rung at least 3x smaller must be <= 3.5; "+
 		"no input of <= 512 bytes may allocate more than 64 MiB (ladders, plus seeded random expressions with bounded expansion). distinct = (family, function, n) or random input; every measurement is non-trivial",
 		false, fmt.Sprintf("ladders=%d; top rung about %s bytes; random inputs for the absolute rule=%d", nLadders, map[bool]string{false: "10^4", true: "10^5"}[c.Thorough()], c.Pick(1500, 20000)),
 		"allocation, not time, is the deciding quantity: time on a loaded machine is not a verdict", "a ladder stops at its first violating rung or above 1 GiB per call, so an exponential family costs seconds")
